@@ -80,11 +80,19 @@ def run_c16(tier, seed):
     reps = 40 if tier == "quick" else 400
     cases = cases * reps
     # arguments larger than the usual I/O buffers (parsed outside the command lock): what a GET returns was written by somebody
+    import thresholds as T
+    sizes = [8192] + [v + 1 for v in T.new_constants() if 256 <= v <= (1 << 20)][:3]      # ... and just above every size constant of the source under test
     for _ in range(8 if tier == "quick" else 80):
+      for size in sizes:
         for n in (2, 4, 8):
-            add([[("SET", [b"big%d" % i, bytes([65 + i]) * 8192 + b"#%d" % i]), ("GET", [b"big%d" % i])] for i in range(n)], "%d clients SET / GET their own key with an 8 KB value" % n)
+            add([[("SET", [b"big%d" % i, bytes([65 + i]) * size + b"#%d" % i]), ("GET", [b"big%d" % i])] for i in range(n)], "%d clients SET / GET their own key with a %d-byte value" % (n, size))
             if n <= 4:
                 add([[("SET", [b"shared", bytes([97 + i]) * 5000]), ("GET", [b"shared"])] for i in range(n)], "%d clients SET / GET a shared key with 5 KB values" % n)
+    # many increments of one key by many clients: the replies fix the linearization order (the search is linear), and a reply that is
+    # built or rewritten outside the command lock shows as two equal or out-of-order replies
+    for _ in range(3 if tier == "quick" else 30):
+        add([[("INCR", [b"hot"])] * 40 for _ in range(8)], "8 clients x 40 INCR on one key")
+        add([[("INCRBY", [b"hot2", b"3"]), ("DECR", [b"hot2"])] * 15 for _ in range(6)], "6 clients x 15 (INCRBY 3 ; DECR) on one key")
     # random short histories over 1..3 keys by 2..8 clients
     for _ in range(1500 if tier == "quick" else 30000):
         keys = [b"k1", b"k2", b"k3"][:rng.randint(1, 3)]
